@@ -44,6 +44,7 @@ package ct
 //@ func MerkleTreeLeafFromChain
 //@ props C01 C03
 //@ arith int
+//@ pure
 //@ site IsPreIssuer#1 as ipi
 //@ site BuildPrecertTBS#1 as bpt
 //@ site sha256.Sum256#1 as sha
@@ -55,6 +56,7 @@ package ct
 //@ ensures [leaf-header] result1 == nil ==> result0.Version == V1 && result0.LeafType == TimestampedEntryLeafType && result0.TimestampedEntry != nil && result0.TimestampedEntry.Timestamp == timestamp && result0.TimestampedEntry.EntryType == etype
 //@ ensures [x509-entry-is-leaf-cert] result1 == nil && etype == X509LogEntryType ==> result0.TimestampedEntry.X509Entry != nil && result0.TimestampedEntry.X509Entry.Data == old(chain[0].Raw) && result0.TimestampedEntry.PrecertEntry == nil
 //@ ensures [precert-needs-issuer] etype == PrecertLogEntryType && len(chain) < 2 ==> result1 != nil
+//@ ensures [caller-view] result1 == nil && etype == PrecertLogEntryType ==> result0.TimestampedEntry.PrecertEntry != nil
 //@ ensures [preissuer-needs-final-issuer] etype == PrecertLogEntryType && len(chain) == 2 && ipi.called && ipi.res ==> result1 != nil
 //@ ensures [precert-entry] result1 == nil && etype == PrecertLogEntryType ==> result0.TimestampedEntry.PrecertEntry != nil && result0.TimestampedEntry.X509Entry == nil && bpt.called && bpt.res1 == nil && result0.TimestampedEntry.PrecertEntry.TBSCertificate == bpt.res0 && sha.called && result0.TimestampedEntry.PrecertEntry.IssuerKeyHash == sha.res
 //@ at ipi assert [tests-the-second-certificate] ipi.issuer == chain[1]
@@ -95,3 +97,72 @@ package ct
 //@ arith int
 //@ site time.Unix#1 as u
 //@ ensures [seconds-and-nanos] u.called && u.sec * 1000 + u.nsec / 1000000 == ts && 0 <= u.nsec && u.nsec < 1000000000 && u.nsec % 1000000 == 0
+
+//@ func MerkleTreeLeafFromRawChain
+//@ props C12
+//@ arith int
+//@ site MerkleTreeLeafFromChain#1 as ml
+//@ site x509.ParseCertificate#1 as pc
+//@ site x509.IsFatal#1 as isf
+//@ loop 1 invariant forall j int :: 0 <= j && j <= rangeindex ==> chain[j] != nil
+//@ ensures [leaf-from-the-parsed-chain] ml.called ==> result0 == ml.res0 && result1 == ml.res1
+//@ ensures [caller-view] result1 == nil ==> result0 != nil && result0.TimestampedEntry != nil && (result0.TimestampedEntry.EntryType == PrecertLogEntryType ==> result0.TimestampedEntry.PrecertEntry != nil)
+//@ fresh result0
+//@ modifies nothing
+//@ at ml assert [same-type-and-timestamp] ml.etype == etype && ml.timestamp == timestamp && len(ml.chain) == (len(rawChain) < 3 ? len(rawChain) : 3)
+
+//@ func (*GetSTHResponse).ToSignedTreeHead
+//@ props C04 C12
+//@ arith int
+//@ pure
+//@ site tls.Unmarshal#1 as um
+//@ requires r != nil
+//@ fresh result0
+//@ ensures [result-xor-error] (result0 != nil) != (result1 != nil)
+//@ ensures [root-hash-must-be-32-bytes] len(r.SHA256RootHash) != 32 ==> result1 != nil
+//@ ensures [signature-must-decode-completely] um.called && (um.res1 != nil || len(um.res0) > 0) ==> result1 != nil
+//@ ensures [fields-copied-without-loss] result1 == nil ==> result0.TreeSize == r.TreeSize && result0.Timestamp == r.Timestamp && result0.Version == V1 && (forall j int :: 0 <= j && j < 32 ==> result0.SHA256RootHash[j] == r.SHA256RootHash[j]) && result0.TreeHeadSignature == after(um, ds)
+//@ at um assert [decodes-the-signature-field] um.b == r.TreeHeadSignature
+
+//@ func (*AddChainResponse).ToSignedCertificateTimestamp
+//@ props C04 C12
+//@ arith int
+//@ pure
+//@ site DecodeString#1 as dec
+//@ site tls.Unmarshal#1 as um
+//@ requires r != nil
+//@ fresh result0
+//@ ensures [result-xor-error] (result0 != nil) != (result1 != nil)
+//@ ensures [log-id-must-be-32-bytes] len(r.ID) != 32 ==> result1 != nil
+//@ ensures [extensions-must-be-base64] dec.called && dec.res1 != nil ==> result1 != nil
+//@ ensures [signature-must-decode-completely] um.called && (um.res1 != nil || len(um.res0) > 0) ==> result1 != nil
+//@ ensures [fields-copied-without-loss] result1 == nil ==> result0.SCTVersion == r.SCTVersion && result0.Timestamp == r.Timestamp && result0.Extensions == dec.res0 && (forall j int :: 0 <= j && j < 32 ==> result0.LogID.KeyID[j] == r.ID[j]) && result0.Signature == after(um, ds)
+
+//@ func (SignatureVerifier).VerifySignature
+//@ props C05
+//@ pure
+//@ site tls.VerifySignature#1 as v
+//@ ensures [delegates-with-the-configured-key] result == v.res
+//@ at v assert [key-data-signature] v.pubKey == s.PubKey && v.data == data && v.sig == sig
+
+//@ func (SignatureVerifier).VerifySCTSignature
+//@ props C05 C12
+//@ pure
+//@ site SerializeSCTSignatureInput#1 as ser
+//@ site VerifySignature#1 as v
+//@ requires entry.Leaf.TimestampedEntry != nil
+//@ requires entry.Leaf.TimestampedEntry.EntryType == PrecertLogEntryType ==> entry.Leaf.TimestampedEntry.PrecertEntry != nil
+//@ ensures [unserialisable-is-an-error] ser.res1 != nil ==> result != nil && !v.called
+//@ ensures [accepts-only-if-the-signature-over-the-rfc6962-input-verifies] result == nil ==> ser.res1 == nil && v.called && v.res == nil
+//@ at ser assert [input-of-this-sct-and-entry] ser.sct == sct && ser.entry == entry
+//@ at v assert [verifies-the-sct-signature-over-exactly-those-bytes] v.data == ser.res0 && v.sig == sct.Signature && v.s == s
+
+//@ func (SignatureVerifier).VerifySTHSignature
+//@ props C05 C12
+//@ pure
+//@ site SerializeSTHSignatureInput#1 as ser
+//@ site VerifySignature#1 as v
+//@ ensures [unserialisable-is-an-error] ser.res1 != nil ==> result != nil && !v.called
+//@ ensures [accepts-only-if-the-signature-over-the-rfc6962-input-verifies] result == nil ==> ser.res1 == nil && v.called && v.res == nil
+//@ at ser assert [input-of-this-sth] ser.sth == sth
+//@ at v assert [verifies-the-sth-signature-over-exactly-those-bytes] v.data == ser.res0 && v.sig == sth.TreeHeadSignature && v.s == s
